@@ -321,6 +321,7 @@ func (g *Gen) execCallPrefixed(c *ssa.CallCommon, in ssa.Instruction, rt types.T
 		recv = g.val(c.Value)
 	}
 	g.checkCallSpecs(c, in, recv, args, prefix)
+	g.takeSnapshots(c, prefix)
 
 	// assumed call frames (//verif:call-preserves): remember the pre-call values
 	type saved struct {
@@ -716,7 +717,7 @@ func (g *Gen) havocLval(sc *SpecCtx, m *SExpr) {
 func (g *Gen) execRunDefers(x *ssa.RunDefers) {
 	for k := len(g.defers) - 1; k >= 0; k-- {
 		d := g.defers[k]
-		flag := g.ghostTerm(g.cur, fmt.Sprintf("$defer:%d", k))
+		flag := g.ghostTerm(g.cur, fmt.Sprintf("$defer:%s%d", g.inlinePrefix, k))
 		if flag == "false" {
 			continue
 		}
@@ -732,6 +733,14 @@ func (g *Gen) execRunDefers(x *ssa.RunDefers) {
 			continue
 		}
 		g.cur = g.mergeStates(g.curBlock, []inEdge{{flag, post}, {"true", pre}})
+	}
+	if g.inlinePrefix != "" {
+		// the flags of an inlined call are dead once its defers have run (so a loop in
+		// the caller does not see them as written)
+		g.cur = g.cur.clone()
+		for k := range g.defers {
+			delete(g.cur.ghost, fmt.Sprintf("$defer:%s%d", g.inlinePrefix, k))
+		}
 	}
 }
 
